@@ -75,6 +75,11 @@ def run(b, ps, tier, seed):
     # how many satisfy the static premise init_linear of determinism_typed_core (core fragment, affine, initial forest)
     linres = S.run_tool(b.model, "initlin", cases, timeout=900)
     lin_in = sorted(i for i, _ in d.programs if linres.get(i, "") == "LIN-IN")
+    # the premises of determinism_core_accept, computed on the source text (theorem init_linear_accept: they imply init_linear)
+    accres = S.run_tool(b.model, "coreaccept", cases, timeout=900)
+    acc_in = sorted(i for i, _ in d.programs if accres.get(i, "").startswith("ACC-IN"))
+    acc_in_not_lin = sorted(i for i, _ in d.programs if accres.get(i, "") == "ACC-IN\tlin=0")
+    lin_not_acc = sorted(i for i, _ in d.programs if accres.get(i, "") == "ACC-OUT\tlin=1")
     lin_out_core = sorted(i for i, t in d.programs if linres.get(i, "") == "LIN-OUT" and not R.uses_contraction(t) and "drop" not in R.strip_comments(t))
     if hyp_fail and not violations:
         i, m, sd, nbad, t = hyp_fail[0]
@@ -94,6 +99,10 @@ def run(b, ps, tier, seed):
                          "typed_core_class": {"what": "tested programs that satisfy init_linear_b (proofs/InitLinear.v, sound for the static premise of determinism_typed_core: no drop/split/multi-name, affine bodies, initial configuration a forest): for these topo_reachable is a theorem and C03 rests only on teq_ok and tc_annotations_typed",
                                               "programs_in_class": len(lin_in), "of": len(d.programs), "ids": lin_in[:12],
                                               "drop_split_free_but_rejected_by_check": lin_out_core[:12]},
+                         "accepted_core_class": {"what": "tested programs that satisfy the SOURCE-level premises of determinism_core_accept (no assumed names, rt_syn_ok, core_src_b: no drop/split/droppable forward, one provider name per process, no empty case): by init_linear_accept (proofs/InitAccept.v) init_linear of the checker's output is a theorem for them, so C03 holds of them with no premise about runs or about the annotated program",
+                                                 "programs_in_class": len(acc_in), "of": len(d.programs), "ids": acc_in[:12],
+                                                 "in_class_but_init_linear_b_false": acc_in_not_lin[:12],
+                                                 "init_linear_b_true_but_outside_class": lin_not_acc[:12]},
                          "unconditional_class": {"what": "tested programs whose initial configuration is in the fork-join class (fj_cfg_b / fj_funs_b, proofs/ForkJoin.v): for these determinism over all schedules is a theorem with no hypothesis left",
                                                  "programs_in_class": len(fj_in), "of": len(d.programs), "ids": fj_in[:12]}})
     return {"violations": violations, "known": [], "coverage": cov, "assumptions": P.COMMON_ASSUMPTIONS, "trusted_extra": P.COMMON_TRUSTED}
